@@ -35,8 +35,8 @@ def run(chk, repo):
     chk.attempt(row_bookkeeping, chk, repo)
     chk.attempt(x123, chk, repo, covered_by="row_bookkeeping", rules=("C02-X1", "C02-X2", "C02-X3"))
     chk.attempt(wrapper_forwarding, chk, repo)
-    chk.attempt(x4, chk, repo, covered_by="wrapper_forwarding")
-    chk.attempt(x4_rows, chk, repo, covered_by="row_bookkeeping")
+    chk.attempt(x4, chk, repo, covered_by="wrapper_forwarding", rules=("C02-X4",))
+    chk.attempt(x4_rows, chk, repo, covered_by="row_bookkeeping", rules=("C02-X4",))
 
 
 def row_bookkeeping(chk, repo):
